@@ -22,4 +22,27 @@ def idsUniqueFrom : List Nat → List Ev → Bool
 
 def idsUnique (evs : List Ev) : Bool := idsUniqueFrom [] evs
 
+/-! `noProgressOnlyAlone`: `io.ErrNoProgress` is the library's verdict "the stream is corrupt: I am the only one
+waiting and the response at the head is not mine".  Reading the recorded events in order, a call may get that verdict
+only while no OTHER call is waiting for its response (written, and neither given its response nor failed yet): with
+somebody else waiting, the response at the head may well be theirs (seed C06-m9: the in-flight counter lost the
+requests that do not go through `do`, and with exactly two calls in flight a valid out-of-order answer closed the
+connection). -/
+
+inductive WEv
+  | wrote (id : Nat) (ok : Bool)   -- a request went out: its caller now waits for the response
+  | left (id : Nat)                -- the caller stopped waiting: it was given its response, or its wait failed
+  | noProgress (id : Nat)          -- the caller was told io.ErrNoProgress
+  | other
+  deriving DecidableEq, Repr
+
+def aloneFrom : List Nat → List WEv → Bool
+  | _, [] => true
+  | waiting, .wrote id ok :: rest => aloneFrom (if ok then id :: waiting else waiting) rest
+  | waiting, .left id :: rest => aloneFrom (waiting.erase id) rest
+  | waiting, .noProgress id :: rest => (waiting.erase id).isEmpty && aloneFrom (waiting.erase id) rest
+  | waiting, .other :: rest => aloneFrom waiting rest
+
+def noProgressOnlyAlone (evs : List WEv) : Bool := aloneFrom [] evs
+
 end KV.Spec.Mux
